@@ -12,3 +12,4 @@ open Chess.Props.C11
 #print axioms search_unfinished
 #print axioms search_some
 #print axioms search_some_spec
+#print axioms cli_game_loop_never_asserts
